@@ -9,7 +9,42 @@ def bool_index_axis0(ex, arr, mask):
 
 
 def fancy_setitem(ex, arr, keys, v):
-    raise Unsupported("fancy-index assignment")
+    """a[ids, :, ...] = v with an index array of concrete length m on the FIRST axis and full slices elsewhere: row ids[t] gets
+    v[t] (later entries win when an index repeats, as numpy assigns in order)."""
+    from .ops import as_ndarray, set_region
+    k0 = keys[0]
+    if not all(isinstance(k, SSlice) and k.start is None and k.stop is None and k.step is None for k in keys[1:]):
+        raise Unsupported("fancy-index assignment combined with partial slices")
+    ids = k0.items if isinstance(k0, Vec) else (list(k0) if isinstance(k0, (list, tuple)) else None)
+    if ids is None:
+        raise Unsupported("fancy-index assignment with a symbolic-length index array")
+    n = arr.shape[0]
+    for i in ids:
+        ex.ctx.check_or_raise(zand(to_z3(i) >= -to_z3(n), to_z3(i) < to_z3(n)), "IndexError", "index out of bounds")
+    ids = [z3.If(to_z3(i) < 0, to_z3(i) + to_z3(n), to_z3(i)) if is_z3(i) else (i % n if isinstance(n, int) else i) for i in ids]
+    if isinstance(v, (int, float)) or is_z3(v):
+        val = lambda t, rest: v
+    else:
+        va = as_ndarray(v if not isinstance(v, (list, tuple)) else Vec(v))
+        ve, _ = va.snapshot()
+        if va.ndim == arr.ndim:
+            if isinstance(va.shape[0], int) and va.shape[0] != len(ids) and va.shape[0] != 1:
+                raise SymRaise("ValueError", "shape mismatch: value array could not be broadcast to indexing result")
+            val = lambda t, rest: ve((t if va.shape[0] != 1 else 0,) + tuple(rest))
+        elif va.ndim == arr.ndim - 1:
+            val = lambda t, rest: ve(tuple(rest))          # one row broadcast to every selected row
+        else:
+            raise Unsupported("fancy-index assignment: value rank")
+
+    def region(idx):
+        return zor(*[to_z3(idx[0]) == to_z3(i) for i in ids])
+
+    def value(idx):
+        e = val(0, idx[1:])
+        for t in range(1, len(ids)):
+            e = zite(to_z3(idx[0]) == to_z3(ids[t]), val(t, idx[1:]), e)
+        return e
+    set_region(ex, arr, region, value)
 
 
 def _triggers(expr, var):
